@@ -144,11 +144,15 @@ namespace GeographicLib {
     if (n & 1 || n < 0)
       return 0;
     n /= 2;
-    real e2n = 1;            // Perhaps this should just be e2n = pow(-_e2, n);
-    for (int j = n; j--;)
+    // e2n = (-e2)^n, e2n1 = e2n / e2 = -(-e2)^(n-1); avoid dividing by e2 so
+    // that the result is well defined for a sphere
+    real e2n = 1, e2n1 = 0;
+    for (int j = n; j--;) {
+      e2n1 = -e2n;
       e2n *= -_e2;
+    }
     return                      // H+M, Eq 2-92
-      -3 * e2n * ((1 - n) + 5 * n * _jJ2 / _e2) / ((2 * n + 1) * (2 * n + 3));
+      -3 * ((1 - n) * e2n + 5 * n * _jJ2 * e2n1) / ((2 * n + 1) * (2 * n + 3));
   }
 
   Math::real NormalGravity::SurfaceGravity(real lat) const {
